@@ -337,6 +337,13 @@ Definition load (bo : border) (d : dt) (c : cell) : num :=
 Definition view_cell (vbo : border) (c : cell) : num :=
   match c with CFlt v => v | CInt bs => Fin (of_le (order vbo bs)) end.
 
+(* a fill, missing or valid value under the _Unsigned view: np.array(value, dtype) is created
+   with the byte order abo of [dtype] and then viewed with the view type of the data, of byte
+   order dbo.  After handoff/C07-fix3-2.diff [dtype] is the data's own type (abo = dbo);
+   before, it was the variable's, and the netCDF4 library returns a zero-dimensional
+   big-endian variable in native byte order (abo = BE, dbo = LE). *)
+Definition attr_view (abo dbo : border) (d : dt) (v : num) : num := view_cell dbo (store abo d v).
+
 (* __getitem__ after the raw view *)
 Definition read_tail (d : dt) (A : attrs) (mask unpack view : bool) (data : list num)
   : dt * list (option num) :=
